@@ -43,6 +43,7 @@ MCNodes == { Nd("h1", "", "c", 10, 20, "", -1, -1, -1),     \* fully specified
              Nd("h1", "", "b", 0, 0, "rw", -1, -1, -1),     \* type only: numbers from the host
              Nd("h2", "", "", 0, 0, "", -1, -1, -1),        \* nothing specified
              Nd("h1", "h2", "", 0, 0, "m", -1, -1, -1),     \* host path differs from container path
+             Nd("h2", "h1", "b", 0, 0, "", -1, -1, -1),     \* type and host path given, numbers from the host
              Nd("h2", "", "c", 7, 7, "r", 5, 0, 420),       \* own uid, gid 0 set explicitly, file mode
              Nd("h1", "", "p", 0, 0, "", -1, -1, -1),       \* fifo: never looked up, no rule
              Nd("h2", "", "u", 3, 4, "", -1, -1, -1) }      \* unbuffered char: no rule
